@@ -1732,6 +1732,9 @@ func ruleFamily(ctx *Ctx) error {
 		"shellquote.Split is outside the model: tokens are produced with shellquote.Join and checked to split back unchanged",
 		"runtime architecture x86_64; os.Stat and os/user results are passed to the model as parameters",
 		"fidelity domain: ASCII values for arch/filetype/msgtype filters (Go applies Unicode case mapping)")
+	if ctx.Replay == "" {
+		ruleFirstUse(res, ctx.Prop)
+	}
 
 	if ctx.Replay != "" {
 		b, err := os.ReadFile(ctx.Replay)
